@@ -207,3 +207,14 @@ func containerOf(si proggen.SiteInfo, t *proggen.TypeDecl) string {
 	}
 	return c
 }
+
+// firstFile returns one (the smallest) file of a program for samples.
+func firstFile(src map[string]string) map[string]string {
+	best := ""
+	for k, v := range src {
+		if best == "" || len(v) < len(src[best]) {
+			best = k
+		}
+	}
+	return map[string]string{best: src[best]}
+}
